@@ -1020,6 +1020,7 @@ class ManyToMany:
         """
         if key not in self.data:
             return
+        hash(newkey)  # refuse an unhashable newkey before anything is moved
         fwdset = self.data.pop(key)
         if newkey in self.data:
             # merge into an existing key rather than overwriting it,
